@@ -78,7 +78,7 @@ def apply_op(g, o: Dict[str, Any], variant: int = 0):
 
 def op_sig(o: Dict[str, Any]) -> Dict[str, Any]:
     s = {"op": o["op"]}
-    for k in ("levels", "k", "ceil", "dim"):
+    for k in ("levels", "k", "ceil", "dim", "valid"):
         if k in o:
             s[k] = o[k]
     if "ac" in o:
